@@ -60,7 +60,7 @@ func langRecover(n int) (r string) {
 }
 
 // LangCases is the number of cases of H_Lang.
-const LangCases = 26
+const LangCases = 27
 
 func H_Lang(k int) {
 	x := verif.IntRange(0, 5)
@@ -245,6 +245,18 @@ func H_Lang(k int) {
 		sp := verif.ConcreteStr(verif.BytesIn(3, "0159.e"))
 		f, err := strconv.ParseFloat(sp, 64)
 		verif.Obs("f", fmt.Sprint(sp, f, err != nil))
+	case 26:
+		var m sync.Map
+		m.Store(x, "v")
+		m.Store("k", 2)
+		v, ok := m.Load(x)
+		_, ok2 := m.Load(9)
+		a, loaded := m.LoadOrStore("k", 3)
+		b, loaded2 := m.LoadOrStore(x+10, 4)
+		m.Delete("k")
+		n := 0
+		m.Range(func(k, v any) bool { n++; return true })
+		verif.Obs("r", fmt.Sprint(v, ok, ok2, a, loaded, b, loaded2, n))
 	}
 	verif.Cover("lang-case")
 }
